@@ -50,6 +50,16 @@ fn mt_run(prop: &str, run: u64) -> bool {
     }
 }
 
+/// One third of the C02 / C07 / C12 runs are recycle-heavy runs with a stalled victim thread.
+fn mt_spec(prop: &str, seed: u64, run: u64) -> MtSpec {
+    if matches!(prop, "C02" | "C07" | "C12") && crate::rng::mix(run ^ 0x5eed) % 3 == 0 {
+        let mut spec = mtscen::gen_spec(seed, run, MtFlavour::Recycle);
+        spec.hb = prop == "C12";
+        return spec;
+    }
+    mtscen::gen_spec(seed, run, mt_flavour(prop))
+}
+
 fn mt_flavour(prop: &str) -> MtFlavour {
     match prop {
         "C02" | "C08" | "C03" => MtFlavour::Safety,
@@ -67,6 +77,7 @@ fn summarise_mt(prop: &str, spec: &MtSpec, out: &MtOut) -> RunSummary {
     faults.insert("busy_wait_park".to_string(), out.parks);
     faults.insert("confirmation_phase".to_string(), out.confirms);
     faults.insert("teardown_in_simulation".to_string(), out.teardowns);
+    faults.insert("aba_cas_success".to_string(), if out.aba.is_empty() { 0 } else { 1 });
     faults.insert(format!("strategy_{}", spec.strategy.name()), 1);
     let mut probes = BTreeMap::new();
     for (k, v) in &out.probes {
@@ -302,7 +313,7 @@ fn run_one_inner(prop: &str, seed: u64, run: u64, tier: &str) -> RunSummary {
         return summarise_diff(prop, &spec, &out, "backends");
     }
     if mt_run(prop, run) {
-        let spec = mtscen::gen_spec(seed, run, mt_flavour(prop));
+        let spec = mt_spec(prop, seed, run);
         let out = mtscen::run_spec(&spec, false);
         return summarise_mt(prop, &spec, &out);
     }
@@ -373,7 +384,7 @@ pub fn minimise(prop: &str, seed: u64, run: u64, tier: &str, sig: &str) -> Optio
         return Some(diff_replay_json(prop, "backends", seed, run, &spec, &ops, &v, None));
     }
     if mt_run(prop, run) {
-        let spec = mtscen::gen_spec(seed, run, mt_flavour(prop));
+        let spec = mt_spec(prop, seed, run);
         let out = mtscen::run_spec(&spec, false);
         let v = out.viols.iter().find(|v| mtscen::mt_signature(v) == sig)?.clone();
         let frozen = mtscen::freeze(&spec, &out);
